@@ -45,7 +45,9 @@ class StreamFace(Face, metaclass=abc.ABCMeta):
                 bio.write(await self.reader.readexactly(siz))
                 buf = bio.getvalue()
                 aio.create_task(self.callback(typ, buf))
-            except (aio.IncompleteReadError, ConnectionResetError):
+            except (aio.IncompleteReadError, OSError):
+                # The stream ended: cleanly, in the middle of a packet, or with an error of the connection
+                # (reset, keep-alive time-out, abort, unreachable host, ...)
                 self.shutdown()
 
     def send(self, data: bytes):
